@@ -18,6 +18,7 @@ pub mod c10;
 pub mod c12;
 pub mod c13;
 pub mod c14;
+pub mod c15;
 pub mod c16;
 
 use crate::case::Case;
@@ -138,6 +139,7 @@ pub fn run_batch(u: &mut Universe, b: &Batch, st: &mut Stats) {
         "C12" => c12::run(u, b, st),
         "C13" => c13::run(u, b, st),
         "C14" => c14::run(u, b, st),
+        "C15" => c15::run(u, b, st),
         "C16" => c16::run(u, b, st),
         other => st.harness_errors.push(format!("unknown check {other}")),
     }
@@ -178,6 +180,10 @@ pub fn run_check(id: &str, tier: &str, seed: u64, jobs: usize) -> i32 {
         "C11" => {
             let res = crate::coord::run_batches(c11::plan(tier, seed), jobs);
             c11::finalise(tier, seed, res)
+        }
+        "C15" => {
+            let res = crate::coord::run_batches(c15::plan(tier, seed), jobs);
+            c15::finalise(tier, seed, res)
         }
         "C16" => {
             let res = crate::coord::run_batches(c16::plan(tier, seed), jobs);
